@@ -16,7 +16,7 @@ class Cond:
         self.functions = list(functions)   # library entry points driven (static list)
         self.rule = rule               # what makes an input non-trivial
         self.per_path_timeout = per_path_timeout
-        self.shard_timeout = shard_timeout or {"quick": 400, "thorough": 3000}
+        self.shard_timeout = shard_timeout or {"quick": 900, "thorough": 3600}
         self.stubs = list(stubs)
         self.assumptions = list(assumptions)
         self.tiers = tiers
